@@ -36,6 +36,12 @@ type c25Run struct {
 	LifetimeMs    int        `json:"lifetime_ms"`
 	Faults        []c25Fault `json:"faults"`
 	CloseEarlyMs  int        `json:"close_early_ms"` // >0: Close is called at that time, in the middle of the fault phase
+	// CloseOnState, if set, calls Close as soon as the client has reported that state after
+	// having been Connected (i.e. while its reconnect monitor is at work), and holds the
+	// closing goroutine between CloseSession and the rest of Close for CloseHoldMs, so that
+	// the monitor's next dial can complete inside Close
+	CloseOnState string `json:"close_on_state,omitempty"`
+	CloseHoldMs  int    `json:"close_hold_ms,omitempty"`
 	RestoreNodes  bool       `json:"restore_nodes"`
 	WithSub       bool       `json:"with_subscription"`
 	ReuseClient   bool       `json:"reuse_client"` // retry Connect on the same Client after a failed Connect
@@ -88,6 +94,12 @@ func (r *c25Run) Setup(s *sim.Sim) {
 	}
 	if p.Chance(1, 5) {
 		r.CloseEarlyMs = 1 + p.Intn(45000)
+	}
+	// (drawn last: plans of runs that do not take this branch are what they were before)
+	if r.CloseEarlyMs == 0 && r.AutoReconnect && p.Chance(1, 5) {
+		r.CloseEarlyMs = 45000
+		r.CloseOnState = sim.Pick(p, "Disconnected", "Reconnecting", "Reconnecting")
+		r.CloseHoldMs = sim.Pick(p, 0, 1, 20, 200, 1000, 3000) + p.Intn(2)*r.ReconnectMs
 	}
 }
 
@@ -342,7 +354,29 @@ func (r *c25Run) Main(s *sim.Sim) {
 	}()
 
 	if closeEarly {
-		if d := closeAt - s.Now(); d > 0 {
+		if r.CloseOnState != "" {
+			if r.CloseHoldMs > 0 {
+				s.SlowPermille, s.SlowMax, s.SlowDurs = 1000, 1, []time.Duration{time.Duration(r.CloseHoldMs) * time.Millisecond}
+				s.SlowMatch = func(label string) bool { return label == "client.Close.afterCloseSession" }
+			}
+			for s.Now() < closeAt {
+				seq := r.snapshot()
+				hit, wasConnected := false, false
+				for _, st := range seq {
+					if st == opcua.Connected {
+						wasConnected = true
+					} else if wasConnected && st.String() == r.CloseOnState {
+						hit = true
+					}
+				}
+				if hit && len(seq) > 0 && seq[len(seq)-1].String() == r.CloseOnState {
+					s.Probe("close-while-" + r.CloseOnState)
+					break
+				}
+				time.Sleep(5 * time.Millisecond)
+			}
+			s.Yield("c25.close") // woken by a timer: let the scheduler order it
+		} else if d := closeAt - s.Now(); d > 0 {
 			time.Sleep(d)
 		}
 		s.Probe("close-during-fault-phase")
@@ -392,6 +426,7 @@ func (r *c25Run) Main(s *sim.Sim) {
 	<-trafficDone
 
 	// Close must return, report Closed and stop everything
+	stateAtClose := cl.State()
 	closeDone := make(chan struct{})
 	go func() {
 		cl.Close(ctx)
@@ -407,7 +442,16 @@ func (r *c25Run) Main(s *sim.Sim) {
 	r.closeRet = true
 	r.mu.Unlock()
 	if st := cl.State(); st != opcua.Closed {
-		s.Fail("C25", "state", "not-closed-after-close", "State() is %v after Close() returned", st)
+		sig := "not-closed-after-close:" + st.String()
+		// Close did report Closed and the reconnect monitor, still at work, reported its own
+		// state after that: the recorded sequence ends ... Closed, <monitor state>
+		seq := r.snapshot()
+		for i := len(seq) - 2; i >= 0 && i >= len(seq)-3; i-- {
+			if seq[i] == opcua.Closed && seq[len(seq)-1] == st && st != opcua.Connecting {
+				sig = "not-closed-after-close:monitor-overwrote-Closed-with-" + st.String()
+			}
+		}
+		s.Fail("C25", "state", sig, "State() is %v after Close() returned (it was %v when Close was called); states=%v", st, stateAtClose, r.stateLog())
 		return
 	}
 	dials := s.Net.Dials
